@@ -25,6 +25,10 @@ func pypiContains(constraints []string, version string) (bool, error) {
 
 	// If it's a prerelease, check if any constraint explicitly includes prereleases
 	if isPrerelease && !constraintsIncludePrerelease(constraints) {
+		// The prerelease is excluded, but invalid constraints are still an error
+		if _, err := contains(e, constraints, version); err != nil {
+			return false, err
+		}
 		return false, nil
 	}
 
